@@ -220,6 +220,7 @@ func main() {
 			}
 		}
 	}
+	excludedWriters(run, cases, rand.New(rand.NewSource(run.Seed+19)))
 	queryParamsAndBatchIds(run, rand.New(rand.NewSource(run.Seed+9)))
 	// fresh processes
 	self, _ := os.Executable()
@@ -244,11 +245,104 @@ func main() {
 	run.Require("order_scans", 1000)
 	run.Require("fresh_process_digests", 3)
 	run.Require("query_param_cases", 50)
+	run.Require("excluded_writer_cases", 200)
 	run.Require("batch_id_cases", 50)
 	run.Finish()
 }
 
 // queryParamsAndBatchIds: parameter order and batch key order must not matter and must come out ascending.
+// excludedWriters repeats the byte-equality and key-order checks for writers configured with an exclusion spec (the
+// writers of update / create requests): leaving fields out must not disturb the order or the determinism of the rest.
+func excludedWriters(run *ev.Run, cases []tcase, rng *rand.Rand) {
+	type wf struct {
+		name string
+		json bool
+		mk   func(spec restlicodec.PathSpec) restlicodec.Writer
+	}
+	writers := []wf{
+		{"json-compact+excluded", true, func(p restlicodec.PathSpec) restlicodec.Writer { return restlicodec.NewCompactJsonWriterWithExcludedFields(p) }},
+		{"json-pretty+excluded", true, func(p restlicodec.PathSpec) restlicodec.Writer { return restlicodec.NewPrettyJsonWriterWithExcludedFields(p) }},
+		{"ror2-header+excluded", false, func(p restlicodec.PathSpec) restlicodec.Writer { return restlicodec.NewRor2HeaderWriterWithExcludedFields(p) }},
+	}
+	for _, c := range cases {
+		if c.v == nil || (c.v.Kind != model.KRecord && c.v.Kind != model.KMap) {
+			continue
+		}
+		members := c.v.Fields
+		if c.v.Kind == model.KMap {
+			members = c.v.Entries
+		}
+		var names []string
+		for n := range members {
+			if n != "" && !strings.ContainsAny(n, "/*$") {
+				names = append(names, n)
+			}
+		}
+		if len(names) < 3 {
+			continue
+		}
+		sort.Strings(names)
+		// every single present member in turn would be ideal; one or two drawn per case keep the cost linear
+		var specs [][]string
+		specs = append(specs, []string{names[rng.Intn(len(names)-1)]})
+		specs = append(specs, []string{names[0], names[len(names)/2]})
+		for _, sp := range specs {
+			for _, w := range writers {
+				var docs []string
+				failed := false
+				for rep := 0; rep < 3; rep++ {
+					ptr, err := codec.BuildGo(c.set, c.full, c.v)
+					if err != nil {
+						failed = true
+						break
+					}
+					d, err := codec.EncodeWith(w.mk(restlicodec.NewPathSpec(sp...)), ptr)
+					if err != nil {
+						failed = true
+						break
+					}
+					docs = append(docs, d)
+				}
+				if failed {
+					continue
+				}
+				run.Eval(1)
+				run.Count("excluded_writer_cases", 1)
+				desc := map[string]any{"type": c.full, "format": w.name, "excluded": sp, "value": trunc(model.Show(c.v)), "document": trunc(docs[0])}
+				if docs[0] != docs[1] || docs[1] != docs[2] {
+					desc["other_encoding"] = trunc(docs[1] + "  |  " + docs[2])
+					run.Violation("v2/"+w.name+"/differs-between-encodings", desc)
+					continue
+				}
+				var orders [][]string
+				var err error
+				if w.json {
+					orders, err = refcodec.JSONKeyOrders([]byte(docs[0]))
+				} else {
+					orders, err = refcodec.ROR2KeyOrders(docs[0], refcodec.Header)
+				}
+				if err != nil {
+					desc["error"] = err.Error()
+					run.Violation("v2/"+w.name+"/output-not-scannable", desc)
+					continue
+				}
+				ok := true
+				for _, keys := range orders {
+					if !ascending(keys) {
+						desc["keys"] = keys
+						run.Violation("v2/"+w.name+"/keys-not-ascending", desc)
+						ok = false
+						break
+					}
+				}
+				if ok {
+					run.Distinct(c.full + "|" + w.name)
+				}
+			}
+		}
+	}
+}
+
 func queryParamsAndBatchIds(run *ev.Run, rng *rand.Rand) {
 	names := []string{"q", "start", "count", "ids", "z", "a", "Z", "a_b", "a.b", "fields", "metadata", "m10", "m2"}
 	for n := 0; n < run.Pick(200, 2000); n++ {
